@@ -2,6 +2,7 @@ package receiver
 
 import (
 	"bytes"
+	"errors"
 	"fmt"
 	"io"
 	"io/fs"
@@ -196,6 +197,9 @@ func (rt *Transfer) recvGenerator(idx int, f *File) error {
 	}
 
 	if rt.Opts.PreserveLinks && mode == rsync.S_IFLNK {
+		if rt.Opts.DryRun {
+			return nil
+		}
 		// TODO: safe_symlinks option
 		if err == nil {
 			// local file exists, verify target matches
@@ -229,6 +233,9 @@ func (rt *Transfer) recvGenerator(idx int, f *File) error {
 		mode == rsync.S_IFBLK ||
 		mode == rsync.S_IFSOCK ||
 		mode == rsync.S_IFIFO) {
+		if rt.Opts.DryRun {
+			return nil
+		}
 		if err := rt.createDevice(f, st); err != nil {
 			return err
 		}
@@ -265,11 +272,19 @@ func (rt *Transfer) recvGenerator(idx int, f *File) error {
 	if os.IsNotExist(err) {
 		return requestFullFile()
 	}
+	if rt.Opts.DryRun && errors.Is(err, syscall.ENOTDIR) {
+		// A parent is not a directory (yet): a real run would have
+		// replaced it by the time we get here.
+		return requestFullFile()
+	}
 	if err != nil {
 		return err
 	}
 
 	if !st.Mode().IsRegular() {
+		if rt.Opts.DryRun {
+			return requestFullFile()
+		}
 		// A non-regular file with this name exists. Delete it so that we can
 		// create our file instead.
 		if err := rt.DestRoot.Remove(f.Name); err != nil {
